@@ -74,6 +74,7 @@ class Result:
 def _worker_init(modname):
     try:
         env.private_cache_home(tag=f"w{os.getpid()}")
+        env.import_lib()  # the tree under test (VERIF_REPO) must be the first ceos_alos2 imported
         mod = importlib.import_module(modname)
         if hasattr(mod, "worker_init"):
             mod.worker_init()
@@ -254,6 +255,7 @@ def main(argv=None):
         mod = importlib.import_module(modname)
         if args.replay:
             env.private_cache_home()
+            env.import_lib()
             body = json.loads(pathlib.Path(args.replay).read_text())
             fn = getattr(mod, body["case"].get("fn", "replay"), None) or mod.execute
             out = fn(body["case"])
